@@ -125,6 +125,13 @@ SQLISH = ['select', 'from', 'where', ' ', ' ', '(', ')', ',', '.', "'", '"', '`'
           'update', 'set', 'delete', 'show', 'describe', 'between', 'like', 'is', 'cast', 'interval', 'latest']
 
 
+OPT_KEYS = ['model', 'storage', 'type', 'database', 'agent', 'engine', 'a']
+OPT_VALUES = ["''", "'x'", "'a.b'", "'.'", "' '", '1', 'null', 'true', 'a', 'a.b', '"x"', '""', '{"k": 1}', '[1]', '1.5', '`a b`']
+OPT_COMMANDS = ['CREATE KNOWLEDGE_BASE kb USING {o}', 'CREATE KNOWLEDGE_BASE kb FROM (select 1) USING {o}', 'CREATE AGENT ag USING {o}',
+                'CREATE SKILL sk USING {o}', 'CREATE CHATBOT cb USING {o}', 'UPDATE AGENT ag SET {o}', 'UPDATE SKILL sk SET {o}',
+                'UPDATE CHATBOT cb SET {o}', 'CREATE ML_ENGINE e FROM h USING {o}', 'CREATE MODEL m PREDICT p USING {o}',
+                'RETRAIN m USING {o}', 'SELECT * FROM t USING {o}', 'CREATE ANOMALY DETECTION MODEL m PREDICT p USING {o}',
+                'EVALUATE acc FROM (select 1) USING {o}', 'CREATE DATABASE d USING {o}']
 PUMP_ALPHABET = ['\\', "'", '"', '`', 'a', '1', ' ', '\n', '.', '-', '*', '/', '(', ')', ',', '@', '$', '{', '#', '_', 'e', '+', 'é']
 PUMP_PREFIX = ['select ', 'select a from t where b = ', '', 'create model m predict p using k = ', 'select a.']
 PUMP_OPEN = ["'", '"', '`', '/*', '--', '#', '', '(', '@', '1', '1.', 'a', '$', '{{', 'x = ']
@@ -211,6 +218,21 @@ def run_shard(col, k, nshards, tier, seed):
             c = {'dialect': x['dialect'], 'sql': x['sql'], 'origin': 'corpus'}
             for rec in judge(c, col):
                 col.fail(rec, c)
+    # bounded-exhaustive: option lists of the MindsDB commands -- the grammar actions look some keys up by name and
+    # build names / nodes from their values: every command x every list of one or two (key, value) pairs
+    opts = [f'{kk} = {vv}' for kk in OPT_KEYS for vv in OPT_VALUES]
+    lists = opts + [a + ', ' + b for a in opts for b in opts]
+    n = 0
+    for tpl in OPT_COMMANDS:
+        for o in lists:
+            n += 1
+            if n % nshards == k:
+                c = {'dialect': 'mindsdb', 'sql': tpl.replace('{o}', o), 'origin': 'options'}
+                for rec in judge(c, col):
+                    col.fail(rec, c)
+    if k == 0:
+        col.exhaustive_parts.append(f'{len(OPT_COMMANDS)} MindsDB commands x all option lists of one or two pairs over '
+                                    f'{len(OPT_KEYS)} keys x {len(OPT_VALUES)} values ({n} statements)')
     # bounded-exhaustive: every production of the live grammar with every alternative of each of its nonterminals
     for d in corpus.DIALECTS:
         for label, toks in grammar.get(d).pair_sentences()[k::nshards]:
